@@ -97,6 +97,41 @@ def _expiry_atom(var):
                                 mode='eval').body)
 
 
+def _rows_tuple(func):
+    """The tuple display whose instances make up the rows handed to
+    upload_batch by func (through slices, copies, comprehensions and
+    appends)."""
+    calls = [c for c in K.calls(func.node)
+             if K.is_meth(c, 'upload_batch') or
+             K.callee_text(c).endswith('upload_batch')]
+    if not calls or len(calls[0].args) < 4:
+        return None
+    cur = calls[0].args[3]
+    defs = {}
+    for sub in K.walk_no_nested(func.node):
+        if isinstance(sub, ast.Assign) and \
+                isinstance(sub.targets[0], ast.Name):
+            defs.setdefault(sub.targets[0].id, []).append(sub.value)
+    for _hop in range(8):
+        if isinstance(cur, ast.Subscript) and isinstance(cur.slice,
+                                                         ast.Slice):
+            cur = cur.value
+            continue
+        if isinstance(cur, ast.ListComp):
+            return cur.elt if isinstance(cur.elt, ast.Tuple) else None
+        if not isinstance(cur, ast.Name):
+            return None
+        vals = defs.get(cur.id, [])
+        if len(vals) == 1 and isinstance(vals[0], (ast.Name, ast.Subscript,
+                                                   ast.ListComp)):
+            cur = vals[0]
+            continue
+        tups = [p['elt'] for p in K.list_contributions(func, cur.id)
+                if 'other' not in p and isinstance(p.get('elt'), ast.Tuple)]
+        return tups[0] if len(tups) == 1 else None
+    return None
+
+
 def _selection(ctx):
     app = ctx.index.module(APP)
     nz = N.Normaliser()
@@ -104,36 +139,66 @@ def _selection(ctx):
     cf = app.functions.get('cleanup_finished')
     ctx.require(ct is not None and cf is not None,
                 'cleanup_trace / cleanup_finished')
-    for func, lst, var, need_sched in ((ct, 'traces', 'timestamp', True),
-                                       (cf, 'expired',
-                                        'metadata.last_modified', False)):
+    for func, need_sched in ((ct, True), (cf, False)):
         graph = ctx.cfg(func)
         facts = N.must_facts(graph, nz)
-        adds = [n for n, c in K.nodes_calling(
-            graph, lambda c: K.is_meth(c, 'append') and
-            K.recv_text(c) == lst)]
-        ctx.require(adds, 'selection into %s' % lst)
-        want = _expiry_atom(var)
-        for node in adds:
-            old = any(N.same_direction(f, want) for f in facts[node])
+        defs = {}
+        for sub in K.walk_no_nested(func.node):
+            if isinstance(sub, ast.Assign) and \
+                    isinstance(sub.targets[0], ast.Name):
+                defs.setdefault(sub.targets[0].id, []).append(sub.value)
+        # the collected list: the one cut into batches
+        sliced = [s.value for s in K.walk_no_nested(func.node)
+                  if isinstance(s, ast.Subscript) and
+                  isinstance(s.slice, ast.Slice) and
+                  isinstance(s.value, ast.Name)]
+        ctx.require(sliced, 'batch slicing in %s' % func.qualname)
+        lst = sliced[0]
+        for _hop in range(3):
+            if len(defs.get(lst.id, [])) == 1 and \
+                    isinstance(defs[lst.id][0], ast.Name):
+                lst = defs[lst.id][0]
+        parts = [p for p in K.list_contributions(func, lst.id)
+                 if 'other' not in p and p['elt'] is not None]
+        by_ast = dict((id(n.ast), n) for n in graph.nodes
+                      if n.kind == 'stmt' and n.ast is not None)
+        adds = [(by_ast[id(p['node'])], p) for p in parts
+                if id(p['node']) in by_ast and
+                isinstance(p['elt'], ast.Tuple)]
+        ctx.require(adds, 'selection into %s' % lst.id)
+        for node, part in adds:
+            elts = part['elt'].elts
+            when = elts[0] if len(elts) == 3 else (
+                elts[1] if len(elts) > 1 else elts[0])
+            wants = [_expiry_atom(N.txt(when)),
+                     _expiry_atom(K.rtxt(func, when))]
+            old = any(N.same_direction(f, want) for f in facts[node]
+                      for want in wants)
             ctx.ob('C18.2', func, node, old,
                    'selected for archiving only when older than the expiry '
-                   '(%s)' % N.show(want), construct='%s [expired]' %
+                   '(%s)' % N.show(wants[0]), construct='%s [expired]' %
                    node.text(50))
             if need_sched:
+                ids = [N.txt(sub.targets[0].elts[0])
+                       for sub in K.walk_no_nested(func.node)
+                       if isinstance(sub, ast.Assign) and
+                       isinstance(sub.targets[0], ast.Tuple) and
+                       isinstance(sub.value, ast.Call) and
+                       K.is_meth(sub.value, 'split')]
+                listings = [name for name, vals in defs.items()
+                            if len(vals) == 1 and 'z.SCHEDULED' in
+                            N.txt(vals[0]) and 'get_children' in
+                            N.txt(vals[0])]
                 ok = any(f.key[0] == 'in' and not f.key[3] and
-                         f.key[1] == 'instanceid' and
-                         f.key[2] == 'scheduled' for f in facts[node])
+                         f.key[1] in ids and f.key[2] in listings
+                         for f in facts[node])
                 ctx.ob('C18.2', func, node, ok,
                        'selected only when the instance is no longer '
                        'scheduled', construct='%s [not scheduled]' %
                        node.text(50))
-        if need_sched:
-            src = ast.unparse(func.node)
-            ctx.ob('C18.2', func, None,
-                   'scheduled = zkclient.get_children(z.SCHEDULED)' in src,
-                   'scheduled is the current listing of /scheduled',
-                   construct='scheduled listing')
+                ctx.ob('C18.2', func, None, bool(listings),
+                       'scheduled is the current listing of /scheduled',
+                       construct='scheduled listing')
     return app
 
 
@@ -183,6 +248,10 @@ def _keep_newest(ctx, mod):
     max_count = func.params()[2]
     for loop in loops:
         it = loop.ast.iter
+        # the domain may be held in a local (stale = nodes[:n])
+        if isinstance(it, ast.Name) and it.id in defs and \
+                isinstance(defs[it.id], ast.Subscript):
+            it = defs[it.id]
         okp = False
         upper = None
         if isinstance(it, ast.Subscript) and N.txt(it.value) == 'nodes' \
@@ -260,22 +329,19 @@ def _schema(ctx, mod, up, app):
                        (srv.functions.get('cleanup_server_trace'),
                         'db_rows'),
                        (app.functions.get('cleanup_finished'), None)):
-        tup = None
-        for sub in K.walk_no_nested(func.node):
-            if rows and isinstance(sub, ast.Assign) and \
-                    N.txt(sub.targets[0]) == rows and \
-                    isinstance(sub.value, ast.ListComp):
-                tup = sub.value.elt
-            if rows is None and isinstance(sub, ast.Call) and \
-                    K.is_meth(sub, 'append') and \
-                    K.recv_text(sub) == 'expired':
-                tup = sub.args[0]
-        ok = isinstance(tup, ast.Tuple) and len(tup.elts) == len(cols) and \
-            ('join_zookeeper_path' in N.txt(tup.elts[0]) or
-             'path' in N.txt(tup.elts[0])) and \
-            ('timestamp' in N.txt(tup.elts[1]) or
-             'last_modified' in N.txt(tup.elts[1])) and \
-            N.txt(tup.elts[4]) in ('event', 'finished')
+        tup = _rows_tuple(func)
+        ok = isinstance(tup, ast.Tuple) and len(tup.elts) == len(cols)
+        if ok:
+            first = K.rtxt(func, tup.elts[0])
+            direc = K.rtxt(func, tup.elts[3])
+            name = N.txt(tup.elts[4])
+            # path = <directory>/<name>: built by the path helpers from the
+            # name in the last column
+            ok = ('join_zookeeper_path(' in first or 'z.path.' in first) \
+                and name in first and tup.elts[1] is not None and \
+                not isinstance(tup.elts[1], ast.Constant) and \
+                isinstance(tup.elts[4], ast.Name) and \
+                (direc.startswith('z.') or 'join_zookeeper_path(' in direc)
         ctx.ob('C18.5', func, tup, ok,
                'rows are (path, timestamp, data, directory, name): %s' % (
                    N.txt(tup) if tup is not None else None),
